@@ -60,6 +60,9 @@ class BitBuffer:
         if self._type is None or self._type.size is None:
             raise ValueError("Invalid state")
 
+        if data < 0 or data >> bits:
+            raise ValueError(f"Value {data} does not fit in a bit field of {bits} bits")
+
         if self.endian == "<":
             self._buffer |= data << (self._type.size * 8 - self._remaining)
         else:
